@@ -194,6 +194,99 @@ pub fn lineseq_stage(ctx: &mut Ctx, maxlen: usize, until: f64, with_unwrap: bool
     ctx.note("lineseq_max_lines_completed", json!(completed));
 }
 
+/// One generated document through the binary, judged by the document oracles.
+fn cli_one(ctx: &mut Ctx, bin: &str, dir: &str, seed: u64, i: u64) {
+    let mut r = Rng::for_case(seed, 14, i);
+    let sp = match i % 3 {
+        0 => Sp::new("<!-- <", "> -->", "time-limited", "removal-marker"),
+        1 => default_sp(),
+        _ => spelling((i / 3) as usize % DELIMS.len(), (i / 48) as usize),
+    };
+    if [&sp.ds, &sp.de, &sp.tl, &sp.mk].iter().any(|s| s.contains('\0')) {
+        return;
+    }
+    let mut gc = GenCfg::block(*r.pick(&UNITS));
+    gc.words = gen::words_for(&[&sp]);
+    gc.allow_inline = i % 2 == 0;
+    gc.max_depth = 3;
+    let mut d = gen_block_doc(&mut r, &gc);
+    if i % 4 == 1 {
+        // push the document over 4 KiB / 64 KiB with multi-byte filler lines of varying length, so
+        // that characters straddle every power-of-two offset a reader might chunk at
+        let lines = if i % 16 == 1 { 2200 + r.below(600) } else { 150 + r.below(300) };
+        let mut filler = String::new();
+        for k in 0..lines {
+            filler.push_str(&"日本語のコメント🎈é".chars().cycle().skip(k % 7).take(5 + (k * 7) % 23).collect::<String>());
+            filler.push('\n');
+        }
+        let at = r.below(d.len() + 1);
+        d.insert(at, text(filler));
+    }
+    if i % 12 == 5 {
+        // a byte-order mark / NUL / ESC somewhere between the pieces: text like any other
+        let c: &str = *r.pick(&["\u{feff}", "\u{0}", "\u{1b}", "\u{0}\u{0}\u{1}"]);
+        let at = if r.chance(1, 2) { 0 } else { r.below(d.len() + 1) };
+        d.insert(at, text(c));
+    }
+    let rd = render(&d, &sp);
+    let step = STEP;
+    let cfg = step_cfg_var(step, i / 7);
+    cli_judge(ctx, bin, dir, &rd, &sp, &cfg, step, r.next() % 216, "through-the-binary");
+}
+
+fn cli_judge(ctx: &mut Ctx, bin: &str, dir: &str, rd: &Rendered, sp: &Sp, cfg: &Cfg, step: u8, variant: u64, gen_name: &str) {
+    if judge::recognition_in_dispute(&rd.text, sp) || !judge::spans_subset(rd, sp) || (gen_name != "replay" && !judge::spans_consistent(rd, sp)) {
+        ctx.skip("through the binary: recognition in dispute / delimiter characters outside tags");
+        return;
+    }
+    let rp = || {
+        let mut v = doc_replay("doc-cli", rd, sp, cfg, step);
+        v["variant"] = json!(variant);
+        v
+    };
+    ctx.before_exec(rp);
+    ctx.eval();
+    ctx.count(&format!("gen:{gen_name}"));
+    let tag = format!("{}-{}", ctx.shard, ctx.evaluations);
+    let out = match super::cli::clean_via_cli(bin, dir, &tag, &rd.text, sp, cfg, variant) {
+        Ok(o) => o,
+        Err(super::cli::CliErr::Env(m)) => {
+            ctx.inconclusive(&format!("through the binary: {m}"));
+            return;
+        }
+        Err(super::cli::CliErr::Bad(m)) => {
+            ctx.violation(gen_name, m, rp());
+            return;
+        }
+    };
+    ctx.count(&format!("cli-input:{}", if variant % 2 == 1 { "stdin" } else { "file" }));
+    ctx.count(&format!("cli-output:{}", ["stdout", "file", "in-place"][((variant / 2) % 3) as usize]));
+    if rd.text.len() > 4096 {
+        ctx.count("cli-documents-over-4KiB");
+    }
+    let rep = judge::doc_judge(rd, step, Ok((out.clone(), vec![])));
+    let prop = ctx.prop.clone();
+    let v = match pick_verdict(&prop, &rep).clone() {
+        V::Violated(m) => V::Violated(format!("[through the binary, variant {variant}] {m}")),
+        o => o,
+    };
+    let h = hash64(&[rd.text.as_bytes(), sp.ds.as_bytes(), b"cli", &variant.to_le_bytes()]);
+    record(ctx, &v, gen_name, h, rp);
+}
+
+pub fn replay_cli(ctx: &mut Ctx, v: &Value) -> Result<(), String> {
+    let bin = std::env::var("CV_CLI_BIN").map_err(|_| "CV_CLI_BIN not set")?;
+    let dir = format!("{}/docs-replay", std::env::var("CV_TMP").unwrap_or_else(|_| "/verif/build/tmp".into()));
+    std::fs::create_dir_all(&dir).map_err(|e| e.to_string())?;
+    let rd = Rendered::from_json(v.get("doc").ok_or("no doc")?).ok_or("bad doc")?;
+    let sp = Sp::from_json(v.get("sp").ok_or("no sp")?).ok_or("bad sp")?;
+    let cfg = Cfg::from_json(v.get("cfg").ok_or("no cfg")?).ok_or("bad cfg")?;
+    let step = v.get("step").and_then(|s| s.as_u64()).unwrap_or(STEP as u64) as u8;
+    let variant = v.get("variant").and_then(|s| s.as_u64()).unwrap_or(0);
+    cli_judge(ctx, &bin, &dir, &rd, &sp, &cfg, step, variant, "replay");
+    Ok(())
+}
+
 pub fn run(ctx: &mut Ctx) {
     let quick = ctx.tier == crate::ctx::Tier::Quick;
     ctx.set_budget_secs(if quick { 22 } else { 300 });
@@ -262,6 +355,28 @@ pub fn run(ctx: &mut Ctx) {
             ctx.count("cli-leg-unavailable (CV_CLI_BIN not built)");
         }
     }
+    // ---- through the binary (C02 / C03 / C14): what the user runs is the CLI, so a sample of
+    // documents - a quarter of them longer than 4 KiB / 64 KiB with multi-byte text - is cleaned by
+    // the real binary (file / stdin in, stdout / other file / in place out, targets by flag /
+    // file / both) and its result judged by the same oracles
+    if !is_c04 {
+        let bin = std::env::var("CV_CLI_BIN").unwrap_or_default();
+        if !bin.is_empty() && std::path::Path::new(&bin).exists() {
+            let dir = format!("{}/docs-{}-{shard}", std::env::var("CV_TMP").unwrap_or_else(|_| "/verif/build/tmp".into()), ctx.prop);
+            if std::fs::create_dir_all(&dir).is_ok() {
+                let total = 40_000 * scale;
+                for i in (shard..total).step_by(n as usize) {
+                    if ctx.past(0.10) {
+                        break;
+                    }
+                    cli_one(ctx, &bin, &dir, seed, i);
+                }
+                let _ = std::fs::remove_dir_all(&dir);
+            }
+        } else {
+            ctx.count("cli-leg-unavailable (CV_CLI_BIN not built)");
+        }
+    }
     // ---- A: block documents
     let total = 120_000 * scale;
     for i in (shard..total).step_by(n as usize) {
@@ -270,6 +385,18 @@ pub fn run(ctx: &mut Ctx) {
         }
         let (rd, sp) = gen_ast_doc(seed, 1, i, false, is_c04 && i % 4 != 0);
         judge_one(ctx, &rd, &sp, &cfg, STEP, "ast-block");
+    }
+    // ---- equal-shape documents back to back (every ordered pair): state kept between calls
+    if !is_c04 && shard < 4 {
+        let docs = equal_shape_docs();
+        let sp = short_sp();
+        let rds: Vec<Rendered> = docs.iter().map(|d| render(d, &sp)).collect();
+        for i in (shard as usize..rds.len()).step_by(4) {
+            for j in 0..rds.len() {
+                judge_one(ctx, &rds[i], &sp, &cfg, STEP, "equal-shape-pairs");
+                judge_one(ctx, &rds[j], &sp, &cfg, STEP, "equal-shape-pairs");
+            }
+        }
     }
     // ---- B: inline / shared-line / multi-line-tag documents
     let total = 80_000 * scale;
